@@ -121,36 +121,38 @@ Lemma resize_locked_effect s t n :
   /\ (forall t0, waiting_pc (pcof s t0) = false -> pcof s' t0 = pcof s t0).
 Proof.
   intros G Hd Hn. unfold resize_locked. sp.
+  match goal with |- context [shrink_idle t ?f ?x] =>
+    pose proof (shrink_idle_effect t f x) as H; set (s1 := shrink_idle t f x) in * end.
+  cbv zeta in H. sp. destruct H as (H1&H2&H3&H4&H5&H6&H7&H8&H9&H10&H11&H12&H13).
+  assert (G1 : GQ s1) by (apply GQ_same with s; try assumption).
   destruct (Z.ltb n (maxs s)) eqn:E1.
   - apply Z.ltb_lt in E1.
-    match goal with |- context [shrink_idle t ?f ?x] =>
-      pose proof (shrink_idle_effect t f x) as H; set (s2 := x) in * end.
-    cbv zeta in H. destruct H as (H1&H2&H3&H4&H5&H6&H7&H8&H9&H10&H11&H12&H13).
-    cbv zeta. rewrite H1, H4, H5, H6, H7, H8, H9, H2, H10, H11.
-    assert (Hfree : 0 <= (if closed s then 0 else Z.min (permits s) (maxs s - n))
-                    <= Z.min (permits s) (maxs s - n)).
-    { pose proof (q_pnn _ G). destruct (closed s); lia. }
-    set (free := if closed s then 0 else Z.min (permits s) (maxs s - n)) in *.
-    subst s2. sp.
+    assert (Hfree : 0 <= (if closed s1 then 0 else Z.min (permits s1) (maxs s - n))
+                    <= Z.min (permits s1) (maxs s - n)).
+    { pose proof (q_pnn _ G1). destruct (closed s1); lia. }
+    set (free := if closed s1 then 0 else Z.min (permits s1) (maxs s - n)) in *.
+    cbv zeta. sp. rewrite ?H1, ?H2, ?H4, ?H5, ?H6, ?H7, ?H8, ?H9, ?H10, ?H11 in *.
     splits; try reflexivity; try lia.
-    + apply GQ_same with (set_permits s (permits s - free)); sp; try reflexivity; try assumption.
+    + apply GQ_same with (set_permits s (permits s - free)); sp; try assumption; try reflexivity.
       apply GQ_permits_le; try assumption; try lia.
       intros Hq. pose proof (q_perm _ G Hq). lia.
-    + intros t0 _. unfold pcof. rewrite H7. reflexivity.
+    + intros t0 _. unfold pcof. sp. rewrite H7. reflexivity.
   - destruct (Z.ltb (maxs s) n) eqn:E2.
     + apply Z.ltb_lt in E2. apply Z.ltb_ge in E1.
-      set (c := Z.min (n - maxs s) (debt s)).
-      set (s1 := set_debt (set_maxs s n) (debt s - c)).
-      assert (G1 : GQ s1) by (apply GQ_same with s; subst s1; sp; try reflexivity; exact G).
-      pose proof (sem_add_n_fields (Z.to_nat (n - maxs s - c)) s1) as (F1&F2&F3&F4&F5&F6&F7&F8&F9&F10&F11).
-      pose proof (sem_add_n_sums (Z.to_nat (n - maxs s - c)) s1 G1) as (S1&S2&S3&S4&S5).
+      set (c := Z.min (n - maxs s) (debt s1)).
+      set (s2 := set_debt s1 (debt s1 - c)).
+      assert (G2 : GQ s2) by (apply GQ_same with s1; subst s2; sp; try reflexivity; exact G1).
+      pose proof (sem_add_n_fields (Z.to_nat (n - maxs s - c)) s2) as (F1&F2&F3&F4&F5&F6&F7&F8&F9&F10&F11).
+      pose proof (sem_add_n_sums (Z.to_nat (n - maxs s - c)) s2 G2) as (S1&S2&S3&S4&S5).
       cbv zeta. rewrite F1, F2, F3, F4, F5, F6, F7, F8, F9, F10, S2, S3, S4, S5.
-      subst s1. sp. subst c.
+      subst s2. sp. subst c. rewrite ?H1, ?H2, ?H4, ?H5, ?H6, ?H7, ?H8, ?H9, ?H10, ?H11 in *.
       splits; try reflexivity; try lia.
-      * apply GQ_sem_add_n, G1.
-      * intros t0 Hw. rewrite pcof_sem_add_n; [reflexivity|exact G1|exact Hw].
-    + apply Z.ltb_ge in E1, E2. cbv zeta. sp. splits; try reflexivity; try lia.
-      apply GQ_same with s; sp; try reflexivity; exact G.
+      * apply GQ_sem_add_n, G2.
+      * intros t0 Hw. rewrite pcof_sem_add_n; [unfold pcof; sp; rewrite H7; reflexivity|exact G2|].
+        unfold pcof in *. sp. rewrite H7. exact Hw.
+    + apply Z.ltb_ge in E1, E2. cbv zeta. rewrite ?H1, ?H2, ?H4, ?H5, ?H6, ?H7, ?H8, ?H9, ?H10, ?H11 in *.
+      splits; try reflexivity; try lia; try assumption.
+      intros t0 _. unfold pcof. rewrite H7. reflexivity.
 Qed.
 
 (* ---------- retain_loop / emit helpers *)
